@@ -49,7 +49,7 @@ class World:
             name, spin = i
             sp = talg.space_of(name)
             r = Rec(None, f"Index({name}{'_' + spin if spin else ''})")
-            r.attrs.update(_kind="index", _ix=i, name=name, spin=spin, space=sp, space_and_spin=(sp, spin),
+            r.attrs.update(_kind="index", _ix=i, name=name, spin=spin, space=sp, space_and_spin=(sp, spin), dummy_index=0,
                            _classes=["Index", "Dummy", "Symbol"])
             self.index_pool[i] = r
         return self.index_pool[i]
